@@ -50,10 +50,25 @@ size_t scan_meta_key(const char * c) {
 	ASSERT(0, "scan_meta_key is only asked about the start of a LINE_META line");
 	return 0;
 }
+#ifdef DEFAULT_ARM
+/* default arm of strip_line_tokens_from_metadata: a line of any OTHER kind (here LINE_LIST_ENUMERATED, e.g. the key
+ * line "1. item: v") is a key line iff scan_meta_line says so (re2c scanner: by contract = the ghost g_other_meta) */
+static bool g_other_meta[NL];
+size_t scan_meta_line(const char * c) {
+	for (size_t j = 0; j < NL; j++) {
+		if (j < g_nl && c == g_srcp + g_lstart[j]) {
+			return g_other_meta[j] ? 1 : 0;
+		}
+	}
+	ASSERT(0, "scan_meta_line is only asked about the start of a line");
+	return 0;
+}
+#else
 size_t scan_meta_line(const char * c) {
 	ASSERT(0, "scan_meta_line: the default arm is not part of this unit (line types are restricted)");
 	return 0;
 }
+#endif
 
 static size_t g_r;               /* ghost: an arbitrary record index (what is checked for it holds for all) */
 #ifdef STRIP_MODULAR
@@ -164,6 +179,15 @@ void h_strip(void) {
 			}
 			ASSUME(src[last] == '\n' || (j == nl - 1 && last == L - 1));
 			unsigned short ty = (j == 0 || ltype[j] % 4 == 0) ? LINE_META : (ltype[j] % 4 == 1 ? LINE_INDENTED_TAB : (ltype[j] % 4 == 2 ? LINE_INDENTED_SPACE : LINE_PLAIN));
+			unsigned short tok_ty = ty;
+#ifdef DEFAULT_ARM
+			/* ty is the EFFECTIVE kind the property reasons with; tok_ty the kind the line classifier assigned */
+			g_other_meta[j] = false;
+			if (j > 0 && ltype[j] % 8 >= 4 && (ty == LINE_META || ty == LINE_PLAIN)) {
+				tok_ty = LINE_LIST_ENUMERATED;
+				g_other_meta[j] = (ty == LINE_META);
+			}
+#endif
 			g_lstart[j] = lstart[j];
 			g_llen[j] = llen[j];
 			g_ltype[j] = ty;
@@ -179,7 +203,7 @@ void h_strip(void) {
 				g_klen[j] = klen[j];
 			}
 			token * t = ALLOC(sizeof(token));
-			t->type = ty;
+			t->type = tok_ty;
 			t->start = lstart[j];
 			t->len = llen[j];
 			t->next = NULL;
